@@ -40,6 +40,9 @@ func runC03(c *Check, tier string) {
 	ruleNoPoolReentry(c, "R03k")
 	// "finished successfully" is decided from the wrapper script's exit status
 	ruleWrapperStatus(c, "R03l")
+	// a restore is complete when it says so: goroutines are counted before they start
+	ruleAddBeforeSpawn(c, "R03m", "output", "caching", "execution", "dag", "worker")
+	ruleCommandRunsOncePerExecution(c, "R03n")
 }
 
 // spawnedAt: the functions a site starts on another goroutine (go statement, or a function value handed to an
